@@ -269,6 +269,31 @@ def run(ctx):
                 gs = guarded_by_variant(F, P, g, bb, rm, ['Some', 'Continue'])
                 R.ob('C01.4', ('client table completing removal', 'mutation only on hit', strip_generics(t['callee'])), bool(gs),
                      'table mutation inside the completing removal is guarded by the hit edge', [g.loc(t)])
+    # miss path: nothing that can trap.  A response naming an id that matches no outstanding call (late, duplicate, spurious) is chosen by the peer: a
+    # panic there ends the dispatch and with it every other call
+    rm = lambda x: any(P.is_call(r, 'HashMap::remove', 'HashMap::remove_entry') for r, _ in P.root(x))
+    traps = []
+    n_miss_blocks = 0
+    for g in table.bodies(comp):
+        if g.kind == 'Closure':
+            continue
+        for i, b in enumerate(g.blocks):
+            if b['cleanup']:
+                continue
+            if not guarded_by_variant(F, P, g, i, rm, ['None', 'Break']):
+                continue
+            n_miss_blocks += 1
+            tm = b['term']
+            if tm['k'] == 'assert':
+                traps.append(g.loc(tm) + ' (%s)' % tm.get('msg', 'assert')[:40])
+            if tm['k'] == 'call' and not tm.get('expn'):
+                c = strip_generics(tm.get('callee') or '')
+                if c.endswith('Option::unwrap') or c.endswith('Option::expect') or c.endswith('Result::unwrap') or c.endswith('Result::expect') or 'panicking::' in c \
+                        or c.endswith('ops::Index::index') or c.endswith('ops::IndexMut::index_mut'):
+                    traps.append(g.loc(tm) + ' (%s)' % c.split('::')[-1])
+    R.ob('C01.4', ('client table completing removal', 'miss path cannot trap'), not traps and n_miss_blocks >= 1,
+         'on the miss edge (no outstanding call has the id) there is no overflow-checked arithmetic, indexing, unwrap or panic: an unmatched response is discarded without ending the dispatch',
+         traps or [comp.loc(comp.d)], 'blocks on the miss edge: %d' % n_miss_blocks)
     # call sites of the completing removal
     sites = [(g, bb, t) for g in F.fns.values() for bb, t in g.calls() if F.callee_fn(t) is comp]
     n_ok_sites = 0
